@@ -57,6 +57,10 @@ type ProxyOpts struct {
 	ClientSecret string
 	Secret       []byte // cookie secret (32 or 64 bytes); default fixed
 	NoLogWrap    bool
+	// Tweak, if set, is called with the resolved upstream configurations (the pointers proxy.New reads)
+	// between SetUpstreamConfigs and New: the only way to set the options the YAML loader never copies
+	// (PassAccessToken, SkipAuthPreflight). nil = no change (default behaviour).
+	Tweak func([]*proxy.UpstreamConfig)
 }
 
 // Proxy is a running in-process sso-proxy.
@@ -162,6 +166,9 @@ func NewProxy(o ProxyOpts) (*Proxy, error) {
 	}
 	if err := proxy.SetUpstreamConfigs(&cfg.UpstreamConfigs, cfg.SessionConfig.CookieConfig, &cfg.ServerConfig); err != nil {
 		return nil, fmt.Errorf("SetUpstreamConfigs: %v", err)
+	}
+	if o.Tweak != nil {
+		o.Tweak(cfg.UpstreamConfigs.VerifConfigs())
 	}
 	p, err := proxy.New(cfg, nil)
 	if err != nil {
